@@ -97,7 +97,7 @@ def p10(ctx, R):
     for f, st, kind in container_writes(ctx, "result", ("parser",)):
         if f is R.up and isinstance(st, ast.AugAssign):
             v = st.value
-            if isinstance(v, ast.List) and len(v.elts) == 1 and "curcommand" in norm(v.elts[0]):
+            if isinstance(v, ast.List) and len(v.elts) == 1 and R.an("curcommand") in norm(v.elts[0]):
                 ctx.holds("P10", "result += [current command]")
             else:
                 ctx.violation("P10", f, "result-append-value", "result is extended with %s, not with the current command" % norm(v), node=st)
@@ -151,7 +151,7 @@ def p11(ctx, R):
                               witness="the last command of a script is accepted but missing from result")
     # comments
     att = [st for st in walk_no_nested(f.node) if isinstance(st, ast.Assign) and any(isinstance(t, ast.Attribute) and t.attr == "hash_comments"
-                                                                                      and "curcommand" in norm(t.value) for t in st.targets)]
+                                                                                      and R.an("curcommand") in norm(t.value) for t in st.targets)]
     rst = [st for st in walk_no_nested(f.node) if isinstance(st, ast.Assign) and any(isinstance(t, ast.Attribute) and t.attr == "hash_comments"
                                                                                       and isinstance(t.value, ast.Name) for t in st.targets)]
     if len(att) == 1 and len(rst) == 1 and isinstance(rst[0].value, ast.List) and not rst[0].value.elts:
